@@ -35,7 +35,7 @@ ASSUMPTIONS = ["'in-between' cases (needed side present, other side missing) may
 REQUIRED = ["C13:valuation-raises-when-missing", "C13:valuation-ok-when-flat", "C13:rebalance-raises-when-missing",
             "C13:rebalance-ok-when-quoted", "C13:atomic-on-failure", "C13:failpoint-atomic", "C13:episode-atomic",
             "C13:episode-fault-raises", "C13:episode-raises-only-when-needed"]
-REQUIRED_CATS = ["measure:weight", "measure:nr-contracts", "closed-with-float-residual", "episode-fault-latent", "episode-1", "episode-quotes-from-table", "request-previewed-before-faults"]
+REQUIRED_CATS = ["measure:weight", "measure:nr-contracts", "closed-with-float-residual", "episode-fault-latent", "episode-1", "episode-quotes-from-table", "request-previewed-before-faults", "account-cloned-after-faults"]
 REQUIRED_HITS = ["Broker.transact", "Broker.rebalance", "Rebalancing.make_trades"]
 TECHNIQUE = "runtime monitoring with fault injection: enumerated quote faults and sys.monitoring failpoints, atomicity asserted via the Broker.transact hook"
 LEVEL_TEXT = ("Fault enumeration. All single-contract fault kinds x position x target combinations are enumerated against the real "
@@ -365,6 +365,18 @@ def case(ctx, i, tier):
         ctx.cat("fault:" + faults[c])
     pos = dict(b.holdings_quantity)
     pos.update(intended)
+    if request is None and rng.random() < 0.3:
+        # the account (with its exchange) is CLONED after the quotes were lost - deep copy, or pickled and restored
+        # (a checkpoint, a worker process) - and a late print for every discontinued contract reaches the clone: the
+        # clone is judged exactly like the original (a discontinued contract stays without price)
+        import copy
+        import pickle
+        b = copy.deepcopy(b) if rng.random() < 0.5 else pickle.loads(pickle.dumps(b))
+        ex = b.exchange
+        for c in cs:
+            if faults[c].startswith("disc"):
+                ex.process_EventNBBO(EventNBBO(t + timedelta(hours=rng.choice([-1, 1])), c, 50.0, 51.0))
+        ctx.cat("account-cloned-after-faults")
     judge(ctx, b, ex, cs, q, tgt, t, label="random", intended=intended, request=request)
     ctx.nontrivial = any(f != "none" and (pos.get(c, 0.0) != 0 or tgt.get(c, 0) != 0) for c, f in faults.items())
     ctx.sample = {"contracts": [c.symbol for c in cs], "faults": {c.symbol: f for c, f in faults.items()},
